@@ -92,6 +92,11 @@ def gen_plan(seed: int, run: int, tier: str) -> dict:
         # how long after the last event the late sweep starts: just over the grace period, or days
         "late_delay": rng.choice(["grace", "grace", "grace", "day", "days"]),
     }
+    # a late sweeper dies in the middle of its sweep or inside the failure callback (after it
+    # has failed the trial, before/while the retry is enqueued) while another one races it
+    if cfg["late_sweepers"] >= 2 and any(f["region"] == "objective" for f in faults) and rng.random() < 0.5:
+        lreg = frng.choice(["callback", "callback", "callback", "sweep"])
+        faults.append({"victim": "late*", "region": lreg, "nth": frng.choice([0, 0, 0, 1, 2, 3, 4, 6] if lreg == "callback" else [0, 1, 2, 3, 5, 8, 13])})
     return {"check": ID, "seed": seed, "run": run, "cfg": cfg, "workers": workers, "faults": faults, "sched": {"seed": rng.getrandbits(48)}}
 
 
@@ -134,7 +139,7 @@ def _run(plan: dict, sim: sched.Sim, ch: sched.Chooser, dep: deploy.Deployment) 
     region: dict[str, list[str]] = {}
     counts: dict[tuple, int] = {}
     crashes: list[dict] = []
-    faults = [dict(f) for f in plan.get("faults", []) if f["victim"] in plan["workers"]]
+    faults = [dict(f) for f in plan.get("faults", []) if f["victim"] in plan["workers"] or f["victim"].startswith("late")]
 
     def task_root(name: str) -> str:
         return name.split("/")[0].rstrip("+")
@@ -150,11 +155,17 @@ def _run(plan: dict, sim: sched.Sim, ch: sched.Chooser, dep: deploy.Deployment) 
             return  # heartbeat thread: dies with its process, never the trigger
         reg = cur_region(name)
         for f in faults:
-            if f.get("fired") or f["victim"] != root or f["region"] == "stall":
+            if f.get("fired") or f["region"] == "stall":
+                continue
+            if f["victim"] == "late*":
+                # whichever late sweeper gets there first (one of them always survives)
+                if not root.startswith("late"):
+                    continue
+            elif f["victim"] != root:
                 continue
             if f["region"] != "any" and f["region"] != reg:
                 continue
-            key = (root, f["region"])
+            key = (f["victim"], f["region"])
             counts[key] = counts.get(key, 0) + 1
             if counts[key] - 1 != f["nth"]:
                 continue
@@ -341,7 +352,7 @@ def _run(plan: dict, sim: sched.Sim, ch: sched.Chooser, dep: deploy.Deployment) 
         if status != "ok":
             return common.result(sim, ch, "violation" if status == "deadlock" else "inconclusive", prefix + "deadlock-late", status)
         for lt in lts:
-            if lt.exc is not None:
+            if lt.exc is not None and not isinstance(lt.exc, sched.SimKilled):
                 raise RuntimeError("late sweeper died: %r" % (lt.exc,)) from lt.exc
     finally:
         hbmod.fail_stale_trials, optuna.storages.fail_stale_trials = saved
